@@ -74,6 +74,8 @@ def build(case, rng=None):
             m.aux_data["elfSymbolInfo"].data[s] = (
                 0, "FUNC", "GLOBAL", "DEFAULT", 0)
 
+    bu.leads = [[iv.get("lead", 0) for iv in sec["ivs"]]
+                for sec in case["secs"]]
     # first pass: sections, intervals, blocks, labels
     pending_exprs = []
     for si, sec in enumerate(case["secs"]):
@@ -111,6 +113,8 @@ def build(case, rng=None):
                     if blk["code"]:
                         m.aux_data["SCCs"].data[cur] = t.bid
                         m.aux_data["profile"].data[cur] = 100 + t.bid
+                elif t.t in "ID" and cur is None:
+                    continue      # uncovered bytes in front of the blocks
                 elif t.t in "ID":
                     cur.size += t.size
                     if t.target is not None:
